@@ -373,3 +373,21 @@ def c12_current_state(tier="quick", seed=0):
         o["finding_key"] = o["id"]
         out.append(o)
     return out
+
+
+# ---- fixed probes (regressions of repaired defects; known deviations are listed in /verif/known_findings.json) ---------------
+def _kept_method(Context):
+    """ctx.eval("var m = [1,2,3].map"); (time passes) ctx.eval("m(f)") -- the method value is used in a later evaluation"""
+    import time as _t
+    c = Context(time_limit=0.3)
+    c.eval("var m = [1, 2, 3].map; 0")
+    _t.sleep(0.4)
+    a = c.eval("m(function (x) { for (var i = 0; i < 3000; i++); return x }).join()")
+    b = c.eval("var r; try { m(function () { throw 5 }) } catch (e) { r = 'caught ' + e } r")
+    return f"{a}|{b}"
+
+
+PROBES_C12 = [
+    ("method-value-kept-across-evaluations", _kept_method, "1,2,3|caught 5"),
+]
+groups.register_probes("C12", PROBES_C12)
